@@ -776,7 +776,9 @@ fn pair_run(st: &mut St, an: &'static str, bn: &'static str, f: PairFns) {
             // the Mean adds the converted number to 0.0: Repeated, even when the ratio is 1
             check_metric(st, "mean-of-unit", &from, &to, ratio, false, &as_repeated, &calls, false, 4.0);
         }
-        {
+        // (occurrence counts near u64::MAX would overflow the Mean's own counter when x is added
+        // four times: the counter is not C19's subject)
+        if occ < (1 << 60) {
             // the same mean grown step by step: 1.0, x, x, (2.0 + 3.0), x, x
             let total = ((((0.0 + 1.0) + val) + val) + (0.0 + 2.0 + 3.0)) + val + val;
             let calls = emit(Op::UnitOverMeanGrownStepwise, &one, none);
